@@ -289,7 +289,21 @@ func removeIndex(list []*index, ix *index) []*index {
 	return list
 }
 
+// alterTable executes the actions of an ALTER TABLE in order (multi-action form: a, b, …).
 func (x *execCtx) alterTable(st *alterTableStmt) (*result, *pgErr) {
+	res, err := x.alterTableOne(st)
+	if err != nil {
+		return nil, err
+	}
+	for _, m := range st.more {
+		if _, err := x.alterTableOne(m); err != nil {
+			return nil, err
+		}
+	}
+	return res, nil
+}
+
+func (x *execCtx) alterTableOne(st *alterTableStmt) (*result, *pgErr) {
 	s := x.s
 	t := s.lookupTable(st.table)
 	if t == nil {
